@@ -1,6 +1,7 @@
 package main
 
 import (
+	"sort"
 	"bytes"
 	"context"
 	"encoding/json"
@@ -182,10 +183,27 @@ func TestGvcReplay(t *testing.T) {
 func templateReplay(e *Engine, o *Obl, repo, dir string) (bool, string, bool) {
 	vc := o.vc
 	key := shortName(fnKey(vc.fn))
-	b, err := os.ReadFile(filepath.Join(verifDir, "replay", key+".tmpl"))
+	// most specific first: <key>@<substring of the obligation's last name segment>.tmpl, then <key>.tmpl
+	var b []byte
+	var err error = os.ErrNotExist
+	last := o.Name[strings.LastIndex(o.Name, "/")+1:]
+	if ms, _ := filepath.Glob(filepath.Join(verifDir, "replay", key+"@*.tmpl")); len(ms) > 0 {
+		sort.Strings(ms)
+		for _, m := range ms {
+			sub := strings.TrimSuffix(strings.TrimPrefix(filepath.Base(m), key+"@"), ".tmpl")
+			if strings.Contains(last, sub) {
+				b, err = os.ReadFile(m)
+				break
+			}
+		}
+	}
+	if err != nil {
+		b, err = os.ReadFile(filepath.Join(verifDir, "replay", key+".tmpl"))
+	}
 	if err != nil || (vc.act == nil && strings.Contains(string(b), "//@ get ")) {
 		return false, "", false
 	}
+	pkgPath := vc.fn.Pkg.Pkg.Path()
 	var tr strings.Builder
 	type getv struct{ name, term, sort, fact string }
 	var gets []getv
@@ -197,6 +215,11 @@ func templateReplay(e *Engine, o *Obl, repo, dir string) (bool, string, bool) {
 	}
 	for _, l := range strings.Split(string(b), "\n") {
 		t := strings.TrimSpace(l)
+		if strings.HasPrefix(t, "//@ pkg ") {
+			// run the test in another package directory of the module (e.g. an external test package with fixtures)
+			pkgPath = e.modPath + "/" + strings.TrimSpace(t[8:])
+			continue
+		}
 		if strings.HasPrefix(t, "//@ get ") {
 			kv := strings.SplitN(t[8:], "=", 2)
 			if len(kv) != 2 {
@@ -224,7 +247,7 @@ func templateReplay(e *Engine, o *Obl, repo, dir string) (bool, string, bool) {
 	src := strings.Join(body, "\n")
 	if len(gets) == 0 {
 		// scenario template: a fixed adversarial scenario that checks the property on the real code
-		out2, err := runOverlayTest(repo, vc.fn.Pkg.Pkg.Path(), e.modPath, src, dir, "TestGvcReplay")
+		out2, err := runOverlayTest(repo, pkgPath, e.modPath, src, dir, "TestGvcReplay")
 		tr.WriteString("scenario replay test:\n" + src + "\nreplay output:\n" + out2 + "\n")
 		if err != nil && !strings.Contains(out2, "GVC-") {
 			tr.WriteString("replay: test run failed: " + err.Error() + "\n")
@@ -288,7 +311,7 @@ func templateReplay(e *Engine, o *Obl, repo, dir string) (bool, string, bool) {
 		fmt.Fprintf(&tr, "model: %s = %s\n", g.name, v)
 		src = strings.ReplaceAll(src, "{{"+g.name+"}}", v)
 	}
-	out2, err := runOverlayTest(repo, vc.fn.Pkg.Pkg.Path(), e.modPath, src, dir, "TestGvcReplay")
+	out2, err := runOverlayTest(repo, pkgPath, e.modPath, src, dir, "TestGvcReplay")
 	tr.WriteString("replay test:\n" + src + "\nreplay output:\n" + out2 + "\n")
 	if err != nil && !strings.Contains(out2, "GVC-") {
 		tr.WriteString("replay: test run failed: " + err.Error() + "\n")
